@@ -72,9 +72,15 @@ fn run_driver(report: &mut Report, known: &KnownFindings, tier: Tier, driver: &s
         let v = Violation::new(property, format!("{}: {}", driver, bare), detail.clone());
         if let Some(k) = known.matches(&v) { report.known_hit.insert((v.property.clone(), format!("{} [{}]", k.what_fails, k.signature))); continue; }
         // the same plan must fail the same way again before it is believed
-        let again = execute(&o.plan);
-        let mut v = v;
-        if !again.problems.iter().any(|(s, _)| s == signature) { v.detail = format!("{} [replay note: a second execution of the same plan did not reproduce it: {:?}]", v.detail, again.problems); }
+        // a violation is believed only if the same plan fails the same way again (up to three more executions);
+        // an anomaly that never reproduces is counted in the evidence and reported on stderr, not raised as an alarm
+        let mut reproduced = false;
+        for _ in 0..3 { let again = execute(&o.plan); if again.problems.iter().any(|(s, _)| s == signature) { reproduced = true; break; } }
+        if !reproduced {
+            report.add_count("unreproduced_anomalies", 1);
+            eprintln!("NOTE: {} plan {:?} showed '{}' once and not again in three re-executions: not reported", driver, o.plan, signature);
+            continue;
+        }
         let body = json!({"kind": "driver-plan", "driver": driver, "plan": format!("{:?}", o.plan), "events": o.events, "results": o.results, "io_log": o.io_log, "wire_packet_types_per_connection": o.wire, "signature": signature, "detail": detail});
         let path = write_replay(property, &format!("{}-{}", driver, bare), &body);
         report.violations.push((v, path));
